@@ -39,7 +39,7 @@ CLAIMED = {
     ),
     "C16": (
         "arity table check, paint-flag table with delegation resolution, post-dominance of the path reset, symbolic evaluation of path construction (`re` normal form), write-set checks of colour/line-state operators, parameter binding from paint_path through LTLine/LTRect into LTCurve fields, saved-state completeness",
-        "Decides the structural necessary conditions of path painting: arities, (stroke, fill, even-odd) flags per operator, close-first for s/b/b*, current path cleared on all paths by every painting operator and n, `re` expansion, which graphics-state fields each colour/line operator writes, that every shape constructor receives line width, flags, both colours, path and dash of the state in force (followed down to the stored fields), the classification sets, and which state q/Q saves. Transformed coordinates as numbers are not decided.",
+        "Decides the structural necessary conditions of path painting: arities, (stroke, fill, even-odd) flags per operator, close-first for s/b/b*, current path cleared on all paths by every painting operator and n, `re` expansion, which graphics-state fields each colour/line operator writes, that every shape constructor receives line width, flags, both colours, path and dash of the state in force (followed down to the stored fields), the classification sets, that shape decisions read device-space points only, and which state q/Q saves. Transformed coordinates as numbers are not decided.",
         "Trusts spec/pdf_operators.json. Known findings C16-R6 (current colour spaces not part of the q/Q snapshot) are recorded.",
         "DESIGN.md §5 C16",
     ),
@@ -80,15 +80,15 @@ CLAIMED = {
         "DESIGN.md §5 C11",
     ),
     "C15": (
-        "complete inventory of file-system call sites against a reviewed table, call-graph reachability for developer-only sites, backward provenance (taint) from every path argument with basename / realpath-prefix confinement recognised by CFG dominance, dominance of the unique-name loop over write-mode opens",
+        "complete inventory of file-system call sites against a reviewed table, call-graph reachability for developer-only sites, backward provenance (taint) from every path argument with basename / realpath-prefix confinement recognised by CFG dominance, dominance of the unique-name loop over write-mode opens and a CFG must-pass check that every assignment of the returned name is followed by the existence test",
         "Decides, relative to its source and sanitizer tables, that processing a document performs no file-system access other than the reviewed sites, that no document-controlled string reaches a path argument unconfined, and that image export never opens an existing file for writing. The claim is complete for the package's source (every call site is enumerated on each run).",
         "Trusts the FS-call table, the source/sanitizer tables and the call-graph resolution (fan-out over-approximates callers). Pickle loading of resource files inside the resource directory is trusted.",
         "DESIGN.md §5 C15",
     ),
     "C12": (
-        "effect analysis: complete inventory of module/class-level mutable state and of every function-level write to it (item stores, mutator calls, class/module attribute stores, global statements) against a reviewed allow-list; CFG dominance of copy-before-store on shared tables; constructor-site enumeration for mutators of shareable CMap objects; mutable-default scan; cache-path sibling agreement",
-        "Decides purity as absence of channels: no function writes process-wide state except two reviewed memo tables and the interning tables, shared encoding/colour-space tables are copied before any store, CMap mutators only run on freshly constructed maps, entry points construct their managers per call, caches store exactly what the uncached path returns under the caching flag. It does not decide bit-for-bit equality of outputs across histories.",
-        "Assumes deterministic dict order/float arithmetic and immutable resource files; aliasing through function arguments is not tracked beyond the listed idioms.",
+        "effect analysis: complete inventory of module/class-level mutable state and of every function-level write to it (item stores, mutator calls, class/module attribute stores, global statements) against a reviewed allow-list; CFG dominance of copy-before-store on shared tables; constructor-site enumeration for mutators of shareable CMap objects; mutable-default scan; cache-path sibling agreement; flow-insensitive alias analysis of the target of every item store / mutator call against the document's parsed dictionaries and lists",
+        "Decides purity as absence of channels: no function writes process-wide state except two reviewed memo tables and the interning tables, shared encoding/colour-space tables are copied before any store, CMap mutators only run on freshly constructed maps, entry points construct their managers per call, caches store exactly what the uncached path returns under the caching flag, and no function writes into a dictionary or list that aliases a parsed (cached) document object. It does not decide bit-for-bit equality of outputs across histories.",
+        "Assumes deterministic dict order/float arithmetic and immutable resource files; aliasing through function arguments is tracked by annotation kinds and, for nested helpers, their call sites only.",
         "DESIGN.md §5 C12",
     ),
     "C13": (
@@ -116,8 +116,8 @@ CLAIMED = {
         "DESIGN.md §5 C18",
     ),
     "C19": (
-        "reconstruction of the MODE/WHITE/BLACK code sets from the BitParser.add calls and entry-by-entry comparison with ITU-T T.4/T.6, plus transcription-independent identities (prefix-freeness, Kraft sums exactly 255/256, shared extended make-up codes); mode-dispatch, parameter-binding and bit-order sibling checks",
-        "Decides that the code tables are the standard's (any changed, dropped, duplicated or permuted code word is detected), that every mode class is dispatched, that Columns/EncodedByteAlign/BlackIs1 reach the decoder and only K=-1 is decoded, and that reader and writer share the MSB-first bit order. The reference-line arithmetic of the vertical/pass/horizontal modes is value level and not decided.",
+        "reconstruction of the MODE/WHITE/BLACK code sets from the BitParser.add calls and entry-by-entry comparison with ITU-T T.4/T.6, plus transcription-independent identities (prefix-freeness, Kraft sums exactly 255/256, shared extended make-up codes); mode-dispatch, parameter-binding and bit-order sibling checks; guard analysis of reference-line look-behind subscripts and sibling/dual agreement of the changing-element searches",
+        "Decides that the code tables are the standard's (any changed, dropped, duplicated or permuted code word is detected), that every mode class is dispatched, that Columns/EncodedByteAlign/BlackIs1 reach the decoder and only K=-1 is decoded, and that reader and writer share the MSB-first bit order. Of the reference-line logic it decides only structural necessary conditions (no look-behind at a negative index, the b1 searches of vertical and pass mode agree, the b2 search is the colour-dual, offset before clamp, pass keeps the colour); that decoded rows equal the encoded bitmap is value level and not decided.",
         "spec/ccitt_codes.json was generated from the repository at the pinned commit and validated by the Kraft/prefix identities and spot checks against T.4; the identities are an oracle independent of that file.",
         "DESIGN.md §5 C19",
     ),
